@@ -552,6 +552,11 @@ func main() {
 		scs = fl
 	}
 	bounds := map[string]any{}
+	// first, so that a thorough run whose budget ends inside the configuration grid below has covered this dimension
+	if os.Getenv("VERIF_SCENARIO") == "" || strings.Contains(os.Getenv("VERIF_SCENARIO"), "reload") {
+		reloadBFS(r, bounds)      // live reloads of the Traces settings, incl. two in a row before the worker takes the notification (reload.go)
+		reloadLoopPart(r, bounds) // the same on the started worker loop
+	}
 	for _, s := range scs {
 		s := s
 		t := time.Now()
